@@ -28,6 +28,7 @@ META = {
                   "Newton rejects fractional roots, unknown configurations raise NotImplementedError. "
                   "Tie: the same Gallina term run in binary64 agrees with the real routine on generated PSD inputs (n <= 12 eigen, n <= 8 iterative; scales 1e-6..1e6; roots incl. fractional; all four "
                   "configurations, diagonal flag, 1x1, iteration/tolerance/order settings): X normwise 1e-9 / 1e-6, termination flag, iteration count, exception class, matrix handed to eigh. "
+                  "Guard clause tested directly on the real code (float32/float64, cond up to 1e12, n up to 64): every returned higher-order result has a recomputed residual <= 0.1 equal to the reported one. "
                   "PARTIAL: the accuracy bound c * (n*u*cond/r + tol*cond + exponent-rounding term) is MEASURED, not proved: float32 and float64 against a 50-digit mpmath reference (n <= 16) and a float64 "
                   "reference (float32, n <= 128); the observed constant is written to the evidence and the check fails above 64.",
     "level_note": "Trusted: Coq kernel + vm_compute; the hand-written model (checked against the code only on generated inputs); the eigh oracle contract (measured by C11); torch.pow = real power; "
@@ -213,6 +214,74 @@ def accuracy_one(A, p: int, q: int, cfg, eps: float, dtype: str, use_mp: bool, i
     return out
 
 
+# ------------------------------------------------------------------------------------------------
+# guard clause of the higher-order solver (a direct test of the real code, no conditioning restriction):
+# "the higher-order solver raises rather than return a result whose residual exceeds its guard"
+
+GUARD = 0.1
+GUARD_SLACK = 1e-3          # relative, for matmul reassociation
+
+
+def gen_guard_inputs(rng, thorough: bool):
+    """(A float64, p, eps, rel_eps, order, max_iter, tol, dtype, kind): ill-conditioned / rank-deficient PSD inputs, integer roots
+    (q = 1, so the returned X is the X the guard looked at)."""
+    import torch
+    out = []
+    # deterministic family: logspace spectra at / beyond the resolution of the dtype, Householder basis
+    def householder(n):
+        v = torch.cos(torch.arange(1, n + 1, dtype=torch.float64) * 1.3) + 1.5
+        return torch.eye(n, dtype=torch.float64) - 2.0 * torch.outer(v, v) / torch.dot(v, v)
+    fam = [(16, 8, 2, 3), (16, 8, 4, 3), (64, 8, 2, 3), (32, 9, 2, 2), (32, 8, 2, 4), (8, 12, 4, 3), (4, 6, 2, 3), (24, 10, 3, 4), (48, 7, 1, 3), (12, 11, 8, 2)]
+    for dtype in ("float32", "float64"):
+        for n, ce, p, order in fam:
+            ev = torch.logspace(0, -ce, n, dtype=torch.float64)
+            Q = householder(n)
+            A = Q @ torch.diag(ev) @ Q.T
+            out.append(((A + A.T) / 2, p, 10.0 ** (-ce - 1), 0.0, order, 100, 1e-8, dtype, f"logspace-1e{ce}"))
+    # random family
+    count = 400 if thorough else 50
+    for k in range(count):
+        dtype = ("float32", "float64")[k % 2]
+        n = rng.choice([4, 6, 8, 12, 16, 24, 32, 48, 64])
+        kind = ("psd", "rankdef", "psd", "repeated")[k % 4]
+        scale = 10 ** rng.uniform(-3, 3)
+        ce = rng.uniform(4, 12)
+        lam = mfh.spectrum(rng, n, kind, scale, 10 ** ce)
+        A = mfh.make_sym(lam, rng.randrange(1 << 40))
+        eps = scale * 10 ** (-ce - rng.uniform(0, 2)) if kind != "rankdef" else scale * 10 ** rng.uniform(-12, -6)
+        p = rng.choice([1, 2, 2, 3, 4, 4, 8])
+        order = rng.choice([2, 3, 3, 4])
+        rel = rng.choice([0.0, 0.0, 0.0, 1e-12])
+        out.append((A, p, eps, rel, order, rng.choice([100, 100, 20, 5]), rng.choice([1e-8, 1e-8, 1e-6, 1e-12]), dtype, kind + f"-1e{ce:.0f}"))
+    return out
+
+
+def guard_one(A, p: int, eps: float, rel: float, order: int, max_iter: int, tol: float, dtype: str) -> dict:
+    """Run the higher-order path of matrix_inverse_root; if it RETURNS, recompute max|A_ridge X^p - I| from the returned X in the
+    same dtype with the documented formula and compare with the guard and with the routine's own 5th return value."""
+    import torch
+    tdt = getattr(torch, dtype)
+    Ad = A.to(tdt)
+    Ad = (Ad + Ad.T) / 2
+    case = mfh.new_case(Ad.double(), p, 1, ("ho", rel, max_iter, tol, order), eps, False)
+    obs = mfh.observe(case, dtype=dtype)
+    r: dict = {"outcome": obs["kind"] + (":" + obs["exc"] if obs["kind"] == "raise" else "")}
+    if obs["kind"] != "ok":
+        return r
+    n = Ad.shape[0]
+    X = obs["X"].reshape(n, n)
+    eps_used = max(rel * float(torch.linalg.matrix_norm(Ad, float("inf"))), eps)
+    I = torch.eye(n, dtype=tdt)
+    Ar = torch.add(Ad, I, alpha=eps_used)
+    res = float(torch.linalg.vector_norm(Ar @ torch.linalg.matrix_power(X.to(tdt), p) - I, float("inf")))
+    res64 = float((Ar.double() @ torch.linalg.matrix_power(X.double(), p) - I.double()).abs().max())
+    r.update({"residual": res, "residual_float64": res64, "finite": bool(torch.isfinite(X).all())})
+    if obs["iter"]:
+        fl, it, terr = obs["iter"][-1]
+        r.update({"flag": fl, "iterations": it, "reported_true_error": terr})
+    return r
+
+
 CONFIGS = [("eigen", False), ("eigen", True), ("newton", 100, 1e-6), ("ho", 0.0, 100, 1e-8, 3)]
 
 
@@ -343,11 +412,58 @@ def run(ck: Check) -> None:
     if acc_viol:
         ck.report(None, f"measured C10 accuracy clause fails on the real routine ({acc_viol[1]['cfg']}, {acc_viol[1]['dtype']}, n={len(acc_viol[1]['A'])}): {acc_viol[0]}", acc_viol[1])
 
+    # ---- 3. guard clause of the higher-order solver (direct test of the real code) --------------------
+    ginputs = gen_guard_inputs(ck.rng, thorough)
+    g_out: dict = {}
+    g_worst = 0.0
+    g_worst_gap = 0.0
+    g_viol = []
+    for (A, p, eps, rel, order, mi, tol, dtype, kind) in ginputs:
+        r = guard_one(A, p, eps, rel, order, mi, tol, dtype)
+        key = dtype + " " + r["outcome"] + (":" + r["flag"] if r.get("flag") else "")
+        g_out[key] = g_out.get(key, 0) + 1
+        if r["outcome"] != "ok":
+            continue
+        what = None
+        limit = GUARD * (1 + GUARD_SLACK)
+        if not r["finite"]:
+            what = "returned a non-finite matrix"
+        elif not (r["residual"] <= limit):
+            what = (f"returned X whose residual max|A_ridge X^p - I| = {r['residual']:.3e} (recomputed in {dtype} from the returned X; {r['residual_float64']:.3e} in float64) "
+                    f"exceeds its guard {GUARD}")
+        elif "reported_true_error" in r and abs(r["reported_true_error"] - r["residual"]) > 1e-3 * max(r["residual"], r["reported_true_error"]) + 1e-6:
+            what = f"reported true_error {r['reported_true_error']:.3e} is not the residual of the returned X ({r['residual']:.3e})"
+        else:
+            g_worst = max(g_worst, r["residual"])
+            if "reported_true_error" in r:
+                g_worst_gap = max(g_worst_gap, abs(r["reported_true_error"] - r["residual"]))
+        if what:
+            g_viol.append((A.shape[0], what, {"kind": "guard-clause", "dtype": dtype, "matrix_kind": kind, "A": A.tolist(), "p": p, "eps": eps, "rel_epsilon": rel,
+                                              "order": order, "max_iterations": mi, "tolerance": tol, "measured": r}))
+    if g_viol:
+        g_viol.sort(key=lambda v: v[0])
+        nA, what, robj = g_viol[0]
+        # certified confirmation on the smallest failing input when it is small enough for vm_compute: C10_checkb in binary64
+        if nA <= 16:
+            import torch
+            A64 = torch.tensor(robj["A"], dtype=torch.float64).to(getattr(torch, robj["dtype"])).double()
+            A64 = (A64 + A64.T) / 2
+            c = mfh.new_case(A64, robj["p"], 1, ("ho", robj["rel_epsilon"], robj["max_iterations"], robj["tolerance"], robj["order"]), robj["eps"], False)
+            o = mfh.observe(c, dtype=robj["dtype"])
+            if o["kind"] == "ok":
+                eps_used = max(robj["rel_epsilon"] * float(torch.linalg.matrix_norm(A64, float("inf"))), robj["eps"])
+                X64 = o["X"].double()
+                term = (f"(C10_checkb fo {nA}%nat {robj['p']}%nat 1%nat (rows {mfh.coq_rows(A64.tolist())}) {coq_float(eps_used)} (rows {mfh.coq_rows(X64.tolist())}) "
+                        f"{coq_float(3 * GUARD)} {coq_float(float('inf'))})")
+                robj["C10_checkb_with_3x_guard_in_binary64"] = mfh.eval_bool_lists(ck, "c10g", [[term]], per_file=1)[0]
+        robj["n_failing"] = len(g_viol)
+        ck.report(None, f"higher-order solver ({robj['dtype']}, n={nA}, root {robj['p']}, order {robj['order']}, {robj['matrix_kind']}, eps {robj['eps']:.2e}) {what}", robj)
+
     # ---- evidence -----------------------------------------------------------------------------------
     nontriv = {(tuple(c["shape"]), c["p"], c["q"], c["cfg"], c["tag"]) for c, o in zip(cases, observations) if mfh.case_n(c) >= 2 and o["kind"] == "ok"}
     statuses = mfh.hist((c["cfg"][0] + ":" + o["iter"][-1][0] + f":{min(o['iter'][-1][1], 20)}it") for c, o in zip(cases, observations) if o["iter"])
     ck.coverage.update({
-        "evaluations": len(cases) + len(ainputs),
+        "evaluations": len(cases) + len(ainputs) + len(ginputs),
         "distinct_nontrivial": len(nontriv),
         "rule": "tie: model (binary64; recorded eigh answer for the eigen paths, no oracle for the iterative solvers) vs real matrix_inverse_root: X normwise (1e-9 eigen / 1e-6 iterative), "
                 "termination flag, iteration count, exceptions by class, eigh query; non-trivial = distinct (shape, root, config, kind) with n >= 2 on which a matrix was returned",
@@ -362,6 +478,12 @@ def run(ck: Check) -> None:
         "inconclusive_rule": "flag/iteration count differ while X agrees and a decision of the model (error vs tolerance, 1.2x growth, stagnation, 0.1 guard) compared two numbers within 2^-20 relative",
         "checker_evaluated_on": sum(1 for t in chk_terms if t is not None),
         "checker_failures": len(chk_fail),
+        "higher_order_guard_clause": {
+            "what": "direct test of the real code, float32 and float64, cond 1e4..1e12, rank-deficient with tiny eps, n 4..64, orders 2..4, integer roots: whenever the routine returns, "
+                    "max|A_ridge X^p - I| recomputed from the returned X in the same dtype must be <= 0.1 (+1e-3 relative) and equal the reported true_error",
+            "inputs": len(ginputs), "outcomes": dict(sorted(g_out.items())), "violations": len(g_viol),
+            "largest_returned_residual": float(f"{g_worst:.4g}"), "largest_gap_to_reported_true_error": float(f"{g_worst_gap:.3g}"),
+        },
         "MEASURED_not_proved": {
             "what": "relative Frobenius error of the real routine against (A + eps I)^(-q/p) computed with 50 digits (mpmath, n <= 16) or in float64 (float32 runs, n <= 128), "
                     "divided by n*u*cond/r + 10u + tol*cond (+ |fl32(1/r) - 1/r| * max|ln lambda| on the paths that carry the exponent in binary32); results flagged REACHED_MAX_ITERS "
@@ -381,6 +503,12 @@ def run(ck: Check) -> None:
 def replay(obj) -> bool:
     import torch
     common.assert_repo_imports()
+    if obj.get("kind") == "guard-clause":
+        A = torch.tensor(obj["A"], dtype=torch.float64)
+        r = guard_one(A, obj["p"], obj["eps"], obj["rel_epsilon"], obj["order"], obj["max_iterations"], obj["tolerance"], obj["dtype"])
+        print("now     :", r)
+        print("recorded:", obj.get("measured"))
+        return True
     if obj.get("kind") == "measured-accuracy":
         A = torch.tensor(obj["A"], dtype=torch.float64)
         r = accuracy_one(A, obj["p"], obj["q"], tuple(obj["cfg"]), obj["eps"], obj["dtype"], obj["use_mp"], obj.get("is_diag", False))
